@@ -119,6 +119,9 @@ func alphabet(n, t int, full bool, scope string) []Ev {
 			add("dkg-error", dkgErrorEv[k], reqError(i, strp(fmt.Sprintf("boom%d", k)), tNorm))
 			if full {
 				add("dkg-error-nil", dkgErrorEv[k], reqError(i, nil, tNorm))
+				if k == 0 {
+					add("dkg-error", dkgErrorEv[k], reqError(i, strp("bad\x01text\x7f\v\a"), tNorm))
+				}
 			}
 		}
 		explicit := []requests.SigningTask{{MessageID: "msg-1", File: "f1", Payload: []byte("payload-1")}, {MessageID: "msg-2", File: "f2", Payload: []byte("payload-2")}}
@@ -145,6 +148,8 @@ func alphabet(n, t int, full bool, scope string) []Ev {
 		add("sgn-error", "event_signing_partial_sign_error_received", reqSigError(i, strp("sign failed"), tNorm))
 		if full {
 			add("sgn-error-nil", "event_signing_partial_sign_error_received", reqSigError(i, nil, tNorm))
+			// error texts are Go error / panic strings: control characters and DEL must survive the dump
+			add("sgn-error", "event_signing_partial_sign_error_received", reqSigError(i, strp("bad\x01text\x7f\v\a"), tNorm))
 		}
 	}
 	add("handover", "event_dkg_init_process", reqDefault(T(20)))
